@@ -36,6 +36,14 @@ def cases(seed, tier):
                                               'perm': perm, 'seed': int(rng.integers(1 << 31))},
                     'vine_type': ['center', 'direct', 'regular'][r % 3], 'truncated': int(rng.choice([1, 2, 3, 10], p=[.1, .2, .3, .4])),
                     'sentinel': str(rng.choice(['pos', 'neg', 'nan'])), 'seed': int(rng.integers(1 << 31))})
+    # two almost perfectly monotone columns: the h-functions reach 0 and 1 in floating point and the
+    # documented {0,1} -> {EPS, 1-EPS} correction is what keeps the pseudo-observations inside (0,1)
+    for r in range(240 if tier == 'quick' else 3000):
+        out.append({'mode': 'fit', 'table': {'d': 2, 'n': int(rng.choice([50, 100, 200])),
+                                              'pattern': 'near_monotone' if r % 4 == 0 else 'near_monotone_exp', 'perm': [0, 1],
+                                              'seed': int(rng.integers(1 << 31))},
+                    'vine_type': ['center', 'direct', 'regular'][r % 3], 'truncated': 3, 'sentinel': 'pos',
+                    'seed': int(rng.integers(1 << 31))})
     cells = [(f, t) for f in biv.FAMILIES for t in (0.2, 0.5, 0.7)]
     for i, (f, t) in enumerate(cells if tier == 'quick' else cells * 6):
         out.append({'mode': 'sample2', 'family': f, 'tau': t, 'vine_type': ['center', 'direct', 'regular'][i % 3],
@@ -203,6 +211,11 @@ def _fit_case(spec, ctx):
             # (b) the attached pseudo-observations are the h-functions of that copula on those inputs
             cop = _copula(e.name, e.theta)
             okh, hs = ctx.call(lambda: (_h(cop, xL, xR), _h(cop, xR, xL)))
+            if okh:
+                raw = np.asarray(cop.partial_derivative(np.column_stack([xR, xL])), dtype=float)
+                sat = int(((raw == 0) | (raw == 1)).sum())
+                if sat:
+                    ctx.note('edges whose raw h-values saturate at exactly 0 or 1 (correction exercised)')
             U = np.asarray(e.U, dtype=float)
             if okh and U.shape == (2, len(xL)):
                 H = np.vstack(hs)
